@@ -37,8 +37,22 @@ def _context(doc):
     return ("colliding-locals" if collide else "plain-locals" if seen else "no-locals"), pat
 
 
-def _one(rec):
+def _rename(o, mp):
+    """the same record with some identifiers spelled differently (ids are abstract names in SbmlDoc.tla)"""
+    if isinstance(o, str):
+        return mp.get(o, o)
+    if isinstance(o, list):
+        return [_rename(x, mp) for x in o]
+    if isinstance(o, dict):
+        return {mp.get(k, k): _rename(v, mp) for k, v in o.items()}
+    return o
+
+
+def _one(rec, alt_ids=False):
     import shutil
+    if alt_ids:
+        # parameter q is spelled "kq": an identifier that CONTAINS the ids of the parameters k and q's namesakes
+        rec = _rename(rec, {"q": "kq"})
     import tempfile
     import numpy as np
     from bioscrape.types import Model
@@ -158,7 +172,7 @@ def _one(rec):
 
 
 def impl_import(job):
-    return {"out": [_one(rec) for rec in job["recs"]]}
+    return {"out": [_one(rec, alt_ids=(i % 2 == 1)) for i, rec in enumerate(job["recs"])]}
 
 
 def tlc_runs(tier):
